@@ -685,6 +685,91 @@ def run_generations(spec, acc, ctx, mode, sig_prefix=""):
         acc.add("generations.schemes", short)
 
 
+def run_interrupted(spec, acc, ctx, mode, sig_prefix=""):
+    """Operations cut short: a TokenGen, a Search or an EDBSetup on a long-lived scheme object is interrupted at a random
+    statement inside the library (KeyboardInterrupt raised by a sys.monitoring failpoint: Ctrl-C, an alarm-driven
+    deadline) and the SAME call is then made again on the same object, key and index. The repeated call must be as
+    good as a first one: what an abandoned operation left behind must not be taken for a finished result."""
+    import os
+    from vlib import instrument
+    rng = ctx.rng
+    repo = os.environ.get("VERIF_REPO", "/repo")
+    gen.MIXED_ID_SIZES = False
+    for scheme in [x for _ in range(spec.get("rounds", 1)) for x in spec["schemes"]]:
+        if ctx.out_of_time():
+            break
+        short = gen.SHORT[scheme]
+        cfg = gen.default_config(scheme)
+        if scheme == "CGKO06.SSE1":
+            cfg.update(param_s=64, param_dictionary_size=16)
+        cp = gen.caps(scheme, cfg)
+        try:
+            db, info = gen.db_from_lens(rng, scheme, cfg, [9, 5, 2, 1], "interrupted")
+        except ValueError:
+            continue
+        if scheme == "CGKO06.SSE2":
+            cfg["param_n"] = len({x for v in db.values() for x in v}) + 1
+        shadow = copy.deepcopy(db)
+        st = sse.Setup(scheme, copy.deepcopy(cfg), copy.deepcopy(db))
+        if st.error is not None:
+            continue
+        words = ([(w, True) for w in shadow] if mode != "absent" else []) + \
+                ([(w, False) for w, _ in gen.absent_keywords(rng, shadow, cp["kw_limit"], 1, 2)] if mode != "present" else [])
+        case = sse.case_desc(scheme, "interrupted", cfg, "interrupted", shadow, {"interrupted": True})
+        bad = False
+        for w, present in words:
+            if bad:
+                break
+            for op in ("tokengen", "search"):
+                # count run on a TWIN scheme object (the object under test must meet the interrupted call as the first
+                # call of its kind for this keyword), then cut points spread over the operation: for tokengen the first
+                # cut is the first TokenGen this object ever makes for the keyword
+                twin = st.L.SSEScheme(copy.deepcopy(cfg))
+                with instrument.FailAt(repo) as cnt:
+                    tk0 = twin.TokenGen(st.key, w)
+                    if op == "search":
+                        cnt.lines = 0
+                        twin.Search(st.edb, tk0)
+                total = cnt.lines
+                if not cnt.ok or total < 2:
+                    continue
+                cuts = [rng.randint(max(1, total // 4), max(1, total - 1))] + \
+                    sorted({1, total // 3, total // 2, total - 1, rng.randint(1, total)})
+                for k in cuts:
+                    if k < 1:
+                        continue
+                    tk = st.sse.TokenGen(st.key, w) if op == "search" else None
+                    try:
+                        with instrument.FailAt(repo, k) as fp_:
+                            if op == "tokengen":
+                                st.sse.TokenGen(st.key, w)
+                            else:
+                                st.sse.Search(st.edb, tk)
+                        acc.count("interrupted.not_interrupted")
+                    except BaseException:       # noqa: whatever the library turns the interruption into
+                        acc.count("interrupted." + op)
+                    want = shadow.get(w, [])
+                    try:
+                        got = st.sse.Search(st.edb, st.sse.TokenGen(st.key, w)).get_result_list()
+                    except Exception as e:
+                        acc.violation(f"{short}:{sig_prefix}{'search' if present else 'absent-search'}-raised:after-an-interrupted-{op}:{exc_site(e)}",
+                                      f"{scheme}: a {op} was interrupted at statement {k} of {total}; the same call repeated on "
+                                      f"the same object raised {type(e).__name__}: {e}", dict(case, keyword=w))
+                        bad = True
+                        break
+                    acc.count("interrupted.repeated_calls_compared")
+                    if not sse.result_matches(scheme, got, want):
+                        acc.violation(f"{short}:{sig_prefix}{'wrong-result' if present else 'absent-nonempty'}:after-an-interrupted-{op}",
+                                      f"{scheme}: a {op} was interrupted at statement {k} of {total} (KeyboardInterrupt inside the "
+                                      f"library); the same call repeated on the same object, key and index returns {len(got)} ids, "
+                                      f"expected {len(want)}", dict(case, keyword=w))
+                        bad = True
+                        break
+                if bad:
+                    break
+        acc.add("interrupted.schemes", short)
+
+
 def replay_steered(case, acc, ctx, mode):
     from vlib.instrument import Steer
     st_ = Steer(ctx.rng, p=0.3, cap=12)
@@ -790,6 +875,9 @@ def finish(m, tier, mode, min_searches):
     cov["generations_of_dropped_indexes_on_one_object"] = {k[12:]: v for k, v in c.items() if k.startswith("generations.")}
     if len(m["sets"].get("generations.schemes", [])) < 9 or c.get("generations.searches", 0) < 1000:
         inc.append("the dropped-index generations did not reach the nine schemes / 1000 searches")
+    cov["operations_interrupted_and_repeated"] = {k[12:]: v for k, v in c.items() if k.startswith("interrupted.")}
+    if len(m["sets"].get("interrupted.schemes", [])) < 9 or c.get("interrupted.repeated_calls_compared", 0) < 200:
+        inc.append("interrupted-and-repeated operations did not reach the nine schemes / 200 comparisons")
     cov["steered_values"] = {k[8:]: v for k, v in c.items() if k.startswith("steered.") and k.count(".") == 1}
     if c.get("steered.prf_outputs_forced", 0) < 200 or c.get("steered.searches", 0) < 500:
         inc.append("the steered-values workload forced fewer than 200 PRF outputs or compared fewer than 500 searches")
